@@ -62,3 +62,18 @@ let hexbytes (s : string) : coq_N list =
   Stdlib.List.init (Stdlib.String.length s / 2) (fun i -> n_of_int (int_of_string ("0x" ^ Stdlib.String.sub s (2 * i) 2)))
 let hex_of_bytes (l : coq_N list) : string =
   if l = [] then "-" else Stdlib.String.concat "" (Stdlib.List.map (fun b -> Printf.sprintf "%02x" (int_of_n b)) l)
+
+(* decimal printing of an arbitrary N (values above max_int appear in CNT) *)
+let dec_of_n (x : coq_N) : string =
+  let h = hex_of_n x in
+  if Stdlib.String.length h <= 15 then string_of_int (int_of_string ("0x" ^ h))
+  else begin
+    (* schoolbook base conversion on a digit array *)
+    let digits = ref [0] in   (* little-endian decimal digits *)
+    Stdlib.String.iter (fun c ->
+      let d = int_of_string ("0x" ^ Stdlib.String.make 1 c) in
+      let carry = ref d in
+      digits := Stdlib.List.map (fun x -> let v = x * 16 + !carry in carry := v / 10; v mod 10) !digits;
+      while !carry > 0 do digits := !digits @ [!carry mod 10]; carry := !carry / 10 done) h;
+    Stdlib.String.concat "" (Stdlib.List.rev_map string_of_int !digits)
+  end
